@@ -163,6 +163,72 @@ class Refuse(Opts):
         return 'Solver with a missing file and option set %r: %r' % (inp['argv'], obs[1:])
 
 
+class Main(Relation):
+    name = 'R_main'
+    kind = 'corr'
+    requires = REQ + ['Run.Main']
+    shard = 40
+    describe = ('Solver(["-f", file] + argv) as a whole against Run/Main.v solver_new: option sets as in R_opts (valid and '
+                'invalid, with -pc / -bf), the file absent, well-formed (random instances) or malformed; outcome class '
+                '(constructed / SystemExit(2) / FileNotFoundError / other exception), and for a constructed Solver its '
+                'ordered criteria and the text of get_debug() before any solve; non-trivial = constructed with >= 2 criteria')
+
+    MALFORMED = ['', '2\n1: 1\n', '1 1\n1: 2\n1: 0: 1:\n', '1 1\n1: x\n1: 0: 1:\n']
+
+    def cases(self, ctx):
+        rng = ctx.rng(self.name)
+        for i in range(900 if ctx.thorough else 150):
+            ns = gen_ns(rng, valid_bias=0.7)
+            ast = instgen.gen_ast(rng)
+            twopl = rng.random() < 0.6
+            stab = rng.random() < 0.25
+            pc, bf = rng.random() < 0.3, rng.random() < 0.2
+            kind = rng.choice(['ok', 'ok', 'ok', 'missing', 'malformed'])
+            text = instgen.render(ast) if kind == 'ok' else (None if kind == 'missing' else rng.choice(self.MALFORMED))
+            extra = ([['-pc']] if pc else []) + ([['-bf']] if bf else [])
+            yield dict(ns=ns, twopl=twopl, stab=stab, pc=pc, bf=bf, na=ast['na'], text=text, kind=kind,
+                       argv=argv_from_ns(ns, twopl, stab, rng, na=ast['na'], extra=extra))
+
+    def observe(self, inp):
+        from matchingproblems.solver.solver import Solver
+        import io, contextlib
+
+        def f():
+            def build(path):
+                with contextlib.redirect_stderr(io.StringIO()):
+                    return Solver(['-f', path] + inp['argv'])
+            if inp['text'] is None:
+                s = build('/nonexistent/dir/inst.txt')
+            else:
+                with impl.tmpfile(inp['text']) as path:
+                    s = build(path)
+            crits = [[ENUM[o.name], list(x) if x is not None else []] for o, x in s.options_parser.optimisation_options]
+            return [crits, s.get_debug()]
+        return C.observe(f)
+
+    def term(self, inp, obs):
+        if obs[0] == 'ok':
+            cls, crits, dbg = 0, obs[1][0], obs[1][1]
+        else:
+            cls = 2 if (obs[1] == 'SystemExit' and obs[2] == '2') else 3 if obs[1] == 'FileNotFoundError' else 1
+            crits, dbg = [], ''
+        cli = '(mkCli %s %s %s %s %s %s)' % (cns(inp['ns']), C.cz(inp['na']), C.cbool(inp['twopl']), C.cbool(inp['stab']),
+                                             C.cbool(inp['pc']), C.cbool(inp['bf']))
+        return '(c16_main %s %s %s %s %s)' % (cli, C.copt(inp['text'], C.cstr), C.cz(cls), ccrits(crits), C.cstr(dbg))
+
+    def key(self, inp):
+        return repr((sorted(inp['ns'].items()), inp['argv'], inp['text']))
+
+    def signature(self, inp, obs):
+        return {'relation': self.name, 'argv': inp['argv'], 'text': inp['text']}
+
+    def nontrivial(self, inp, obs):
+        return obs[0] == 'ok' and len(inp['ns']) >= 2
+
+    def stats(self, inp, obs):
+        return {'file=' + inp['kind']: 1, 'outcome=' + (obs[0] if obs[0] == 'ok' else obs[1]): 1}
+
+
 class Info(lpcommon.LPRelation):
     name = 'M_info'
     kind = 'monitor'
@@ -233,4 +299,4 @@ class MLexExtras(lpcommon.MLex):
                 'each criterion must be optimised with ITS OWN arguments (documented defaults when it has none)')
 
 
-RELATIONS = [Opts(), OptsSpec(), Refuse(), Info(), RLpExtras(), MLexExtras()]
+RELATIONS = [Opts(), OptsSpec(), Refuse(), Main(), Info(), RLpExtras(), MLexExtras()]
